@@ -144,7 +144,7 @@ pub fn common_prefix_len(left: &str, right: &str) -> usize {
 //@ ensures
 //@     r <= left.spec_bytes().len(), r <= right.spec_bytes().len(),   // [C03]
 //@     left.spec_bytes().subrange(0, r as int) == right.spec_bytes().subrange(0, r as int),   // [C11,C17]
-//@     is_char_boundary(left.spec_bytes(), r as int),   // [C02,C11,C17]
+//@     is_char_boundary(left.spec_bytes(), r as int),   // [C02,C11,C17,~C05]
 //@     // maximal: no longer common prefix ends on a character boundary of `left`
 //@     forall|p: int| r < p <= left.spec_bytes().len() && p <= right.spec_bytes().len() && #[trigger] is_char_boundary(left.spec_bytes(), p)
 //@         ==> left.spec_bytes().subrange(0, p) != right.spec_bytes().subrange(0, p),   // [C11,C17]
